@@ -179,7 +179,7 @@ FAMILIES = {
 }
 
 OBLIGATIONS = []
-for e in all_entries():
+for e in all_entries(ber_only=True):
     p = _relevant(e)
     sh = [{"seg": C(s)} for s in range(5)] if p["seg"][0] != "const" else None
     OBLIGATIONS.append(entry_obl("forms", forms, e, extra=p, narrow=True, budget=120, thorough_budget=400, extra_shards=sh, tiers=("thorough",)))
